@@ -43,9 +43,21 @@ class RealWorld:
         pass
 
 
+MODE = {"v": "plain"}  # "plain": blocking calls; "timed": step_async + step_wait(timeout=0.1), the outcome of close(timeout=0.1) is compared
+
+
 def scenario_ops(venv, n):
     """reset, 3 steps; returns a compact outcome description"""
     out = []
+    if MODE["v"] == "timed":
+        try:
+            venv.reset(seed=5)
+            venv.step_async([[1, 1] for _ in range(n)])  # per-environment action lists, as step() builds them
+            venv.step_wait(timeout=0.1)
+            out.append(("step", "returned"))
+        except BaseException as e:
+            out.append(("raised", type(e).__name__))
+        return out
     try:
         obs, _ = venv.reset(seed=5)
         out.append(("reset", float(obs["a_0"][0][0]), float(obs["a_0"][n - 1][0])))
@@ -68,7 +80,11 @@ def run_real(faults, n=2):
 
     def closer():
         try:
-            venv.close()
+            t0 = time.perf_counter()
+            venv.close(**CLOSE_KW[MODE["v"]])
+            if MODE["v"] == "timed" and time.perf_counter() - t0 > 0.45:
+                res["close"] = "late"
+                return
             res["close"] = "returned"
         except BaseException as e:
             res["close"] = "raised " + type(e).__name__
@@ -105,8 +121,9 @@ def run_sim(faults, n=2, seed=0):
         venv = AsyncPettingZooVecEnv([(lambda i=i: ScriptPZ(SPEC, i, world)) for i in range(n)])
         out = scenario_ops(venv, n)
         try:
-            venv.close()
-            close = "returned"
+            t0 = sched.now
+            venv.close(**CLOSE_KW[MODE["v"]])
+            close = "late" if MODE["v"] == "timed" and sched.now - t0 > 0.45 else "returned"
         except (Deadlock, StepCap):
             close = "hangs"
         except BaseException as e:
@@ -119,6 +136,8 @@ def run_sim(faults, n=2, seed=0):
     return out, close, alive
 
 
+CLOSE_KW = {"plain": {}, "timed": {"timeout": 0.1}}
+
 SCENARIOS = {
     "no_fault": {},
     "raise_plain": {(1, "step", 2): {"kind": "raise", "exc": "ValueError", "msg": "boom"}},
@@ -127,6 +146,9 @@ SCENARIOS = {
     "die_in_step": {(1, "step", 2): {"kind": "die"}},
     "die_in_reset": {(0, "reset", 1): {"kind": "die"}},
     "short_sleep": {(0, "step", 1): {"kind": "sleep", "d": 0.2}},
+    # a wait that times out while a worker is stalled, then close(timeout=0.1): must come back within its limit, nobody left alive
+    "timed:stall_then_close": {(1, "step", 1): {"kind": "sleep", "d": 0.6}},
+    "timed:no_stall": {},
 }
 
 
@@ -136,6 +158,7 @@ def main():
     gl.min_level = 100
     bad = 0
     for name, faults in SCENARIOS.items():
+        MODE["v"] = "timed" if name.startswith("timed:") else "plain"
         real = run_real(faults)
         sims = [run_sim(faults, seed=s) for s in range(3)]
         agree = all(s == real for s in sims)
